@@ -157,6 +157,10 @@ extern "C" int LLVMFuzzerTestOneInput(const uint8_t* data, size_t size) {
                            : std::string("readFEN rejects a string the FEN grammar accepts"), data, size);
     if (!got) { fz::rejected(); fz::cls("rejected: " + why); return 0; }
     fz::accepted(data, size);
+    if (!fz::clocksSane(model.hmc, model.fmc)) { // absurd counters: a reader may keep, ignore or clamp them
+        fz::cls("accepted: absurd move counters (not compared)", data, size);
+        model.hmc = pos.getHalfMoveClock(); model.fmc = pos.getFullMoveCounter();
+    }
     std::string d = tx::diff(pos, model, 0);
     if (!d.empty()) fz::oracleFail("readFEN result differs from the model: " + d, data, size);
     std::string inv = scratchInvariants(pos);
